@@ -1,4 +1,5 @@
 (* LoopSpecProofs.v — the invariant of the abstract loop system holds along every schedule. *)
+From Coq Require Import Arith.
 From MPD Require Import Bytes Tables ParserModel BuilderModel ConnModel CommandModel LoopModel LoopProofs LoopSpec.
 Open Scope N_scope.
 
@@ -298,3 +299,292 @@ Corollary quiescent_all_delivered sch : Forall wf_label sch ->
 Proof. intros H Hs. pose proof (exactly_once sch H) as He. rewrite Hs in He. cbn in He. rewrite app_nil_r in He. exact He. Qed.
 
 End Proofs.
+
+(* ------------------------------------------------------------------------------------------ *)
+(* Progress: without new requests or changes, every step the scheduler can still take (client
+   resumptions and server reads, in ANY order) strictly decreases a measure; when the measure is 0
+   the system is quiescent (client idling, server waiting in idle, nothing in flight, nothing
+   queued).  So every issued request is answered after at most [mu] such steps, whatever the
+   order - the fairness assumption is only that enabled steps are eventually taken. *)
+
+Ltac simp_beq :=
+  repeat first
+    [ rewrite beq_refl
+    | rewrite (proj1 idle_noidle_distinct)
+    | rewrite (proj2 idle_noidle_distinct)
+    | match goal with
+      | H : wf_req ?q |- context [beq (q_bytes ?q) idle_line] => rewrite (proj1 (wf_beq q H))
+      | H : wf_req ?q |- context [beq (q_bytes ?q) noidle_line] => rewrite (proj2 (wf_beq q H))
+      end ].
+
+Section Progress.
+Variable reply_fn : bytes -> response.
+Notation astep := (LoopSpec.astep reply_fn).
+Notation Inv := (LoopSpec.Inv reply_fn).
+
+Definition internal (l : label) : bool :=
+  match l with LTake | LRecv | LTimeout | LServe => true | _ => false end.
+
+Definition phase (s : asys) : nat :=
+  match a_pt s with
+  | PIdle => length (a_c2s s) + 2 * length (a_s2c s)
+  | PCancel _ => 5 + length (a_c2s s)
+  | PWait _ => 3 + length (a_c2s s)
+  | PWindow => 2
+  | PExited => 0
+  end.
+
+Definition mu_sys (s : asys) : nat := 8 * length (a_queue s) + 3 * length (a_pending s) + phase s.
+
+Lemma internal_step_decreases s l :
+  Inv s -> internal l = true -> astep s l = s \/ (mu_sys (astep s l) < mu_sys s)%nat.
+Proof.
+  intros HI Hl.
+  destruct s as [pt queue c2s idle pending s2c viol issued sent reported delivered replies].
+  pose proof HI as (Hsh & Hv & Hq & _).
+  cbn [a_pt a_queue a_c2s a_idle a_pending a_s2c a_violated a_issued a_sent a_reported a_delivered a_replies] in *.
+  unfold shape in Hsh; cbn [a_pt a_c2s a_idle a_s2c a_pending a_issued] in Hsh.
+  destruct l; try discriminate Hl.
+  - (* LTake *)
+    unfold astep, LoopSpec.astep; cbn [a_queue a_pt].
+    destruct queue as [|q rest]; [left; reflexivity|].
+    destruct pt as [ | q0 | id0 | | ]; cbn [wants_cmd]; try (left; reflexivity).
+    + right. unfold client; cbn. unfold mu_sys, phase; cbn.
+      destruct Hsh as [(Hc & _ & Hs) | [(Hc & _ & _ & Hs) | (ns & Hc & _ & Hs)]]; subst c2s s2c; cbn; lia.
+    + right. destruct Hsh as (Hc & _ & Hs); subst c2s s2c. unfold client; cbn. unfold mu_sys, phase; cbn. lia.
+  - (* LRecv *)
+    unfold astep, LoopSpec.astep; cbn [a_s2c a_pt].
+    destruct s2c as [|r rest]; [left; reflexivity|].
+    destruct pt as [ | q0 | id0 | | ]; cbn [wants_recv]; try (left; reflexivity).
+    + right. destruct Hsh as [(_ & _ & Hs) | [(_ & _ & _ & Hs) | (ns & Hc & Hi & Hs)]]; try discriminate Hs.
+      inversion Hs; subst r rest c2s idle.
+      unfold client. cbn [a_pt cstep]. rewrite single_idle.
+      cbn [a_pt a_queue a_c2s a_idle a_pending a_s2c a_violated a_issued a_sent a_reported a_delivered a_replies sent_by].
+      rewrite apply_outs_events. cbn. unfold mu_sys, phase; cbn. lia.
+    + right. destruct Hsh as (Hw & Hin & Hsh).
+      destruct Hsh as [(_ & _ & Hs) | [(_ & _ & _ & Hs) | [(ns & Hc & Hi & Hs) | (ns & Hc & Hi & Hs)]]]; try discriminate Hs;
+        inversion Hs; subst r rest c2s idle;
+        unfold client; cbn [a_pt cstep]; rewrite single_idle;
+        cbn [a_pt a_queue a_c2s a_idle a_pending a_s2c a_violated a_issued a_sent a_reported a_delivered a_replies sent_by];
+        rewrite apply_outs_events; cbn; unfold mu_sys, phase; cbn; lia.
+    + right. destruct Hsh as (q & Hid & Hw & Hin & Hi & Hsh).
+      destruct Hsh as [(_ & Hs) | [(_ & Hs) | (Hc & Hs)]]; try discriminate Hs.
+      inversion Hs; subst r rest c2s. unfold client; cbn. unfold mu_sys, phase; cbn. lia.
+  - (* LTimeout *)
+    unfold astep, LoopSpec.astep; cbn [a_pt].
+    destruct pt; try (left; reflexivity).
+    right. destruct Hsh as (Hc & _ & Hs); subst c2s s2c. unfold client; cbn. unfold mu_sys, phase; cbn. lia.
+  - (* LServe *)
+    unfold astep, LoopSpec.astep, serve; cbn [a_c2s a_idle a_pending a_s2c a_pt].
+    destruct pt as [ | q0 | id0 | | ].
+    + destruct Hsh as [(Hc & Hi & Hs) | [(Hc & Hi & Hp & Hs) | (ns & Hc & Hi & Hs)]]; subst c2s idle s2c; try (left; reflexivity).
+      right. simp_beq. destruct pending as [|p ps]; unfold flush, mu_sys, phase; cbn; lia.
+    + destruct Hsh as (Hw & Hin & Hsh).
+      destruct Hsh as [(Hc & Hi & Hs) | [(Hc & Hi & Hp & Hs) | [(ns & Hc & Hi & Hs) | (ns & Hc & Hi & Hs)]]]; subst c2s idle s2c;
+        try (left; reflexivity); right; simp_beq.
+      * destruct pending as [|p ps]; unfold flush, mu_sys, phase; cbn; lia.
+      * subst pending. unfold flush, mu_sys, phase; cbn; lia.
+      * unfold mu_sys, phase; cbn; lia.
+    + destruct Hsh as (q & Hid & Hw & Hin & Hi & Hsh).
+      destruct Hsh as [(Hc & Hs) | [(Hc & Hs) | (Hc & Hs)]]; subst c2s idle s2c id0; try (left; reflexivity);
+        right; simp_beq; unfold mu_sys, phase; cbn; lia.
+    + destruct Hsh as (Hc & Hi & Hs); subst c2s. left; reflexivity.
+    + contradiction.
+Qed.
+
+(* measure 0 = quiescent *)
+Lemma mu_zero_quiescent s : Inv s -> mu_sys s = 0%nat ->
+  a_pt s = PIdle /\ a_queue s = [] /\ a_c2s s = [] /\ a_s2c s = [] /\ a_idle s = true /\ a_pending s = [].
+Proof.
+  intros (Hsh & _) Hm. unfold mu_sys, phase in Hm. unfold shape in Hsh.
+  destruct (a_pt s); try lia.
+  assert (Hq : a_queue s = []) by (destruct (a_queue s); [reflexivity | cbn in Hm; lia]).
+  assert (Hp : a_pending s = []) by (destruct (a_pending s); [reflexivity | cbn in Hm; lia]).
+  destruct Hsh as [(Hc & _ & Hs) | [(Hc & Hi & _ & Hs) | (ns & Hc & _ & Hs)]]; rewrite Hc, Hs in Hm; cbn in Hm; try lia.
+  repeat split; assumption.
+Qed.
+
+(* no deadlock: as long as the measure is positive some internal step changes the state *)
+Lemma positive_measure_can_step s : Inv s -> (0 < mu_sys s)%nat ->
+  exists l, internal l = true /\ (mu_sys (astep s l) < mu_sys s)%nat.
+Proof.
+  intros HI Hm.
+  destruct s as [pt queue c2s idle pending s2c viol issued sent reported delivered replies].
+  pose proof HI as (Hsh & _).
+  unfold shape in Hsh; cbn [a_pt a_c2s a_idle a_s2c a_pending a_issued] in Hsh.
+  Ltac serve_case :=
+    exists LServe; split; [reflexivity|];
+    unfold LoopSpec.astep, serve; cbn [a_c2s a_idle a_pending a_s2c a_pt]; simp_beq;
+    try match goal with |- context [match ?p with [] => _ | _ :: _ => _ end] => destruct p end;
+    unfold flush, mu_sys, phase; cbn; lia.
+  Ltac recv_idle_case :=
+    exists LRecv; split; [reflexivity|];
+    unfold LoopSpec.astep; cbn [a_s2c a_pt wants_recv];
+    unfold client; cbn [a_pt cstep]; rewrite single_idle;
+    cbn [a_pt a_queue a_c2s a_idle a_pending a_s2c a_violated a_issued a_sent a_reported a_delivered a_replies sent_by];
+    rewrite apply_outs_events; cbn; unfold mu_sys, phase; cbn; lia.
+  destruct pt as [ | q0 | id0 | | ].
+  - destruct Hsh as [(Hc & Hi & Hs) | [(Hc & Hi & Hp & Hs) | (ns & Hc & Hi & Hs)]]; subst c2s idle s2c.
+    + serve_case.
+    + subst pending. destruct queue as [|q rest]; [unfold mu_sys, phase in Hm; cbn in Hm; lia|].
+      exists LTake. split; [reflexivity|]. unfold LoopSpec.astep, client; cbn. unfold mu_sys, phase; cbn. lia.
+    + recv_idle_case.
+  - destruct Hsh as (Hw & Hin & Hsh).
+    destruct Hsh as [(Hc & Hi & Hs) | [(Hc & Hi & Hp & Hs) | [(ns & Hc & Hi & Hs) | (ns & Hc & Hi & Hs)]]]; subst c2s idle s2c.
+    + serve_case.
+    + subst pending. serve_case.
+    + serve_case.
+    + recv_idle_case.
+  - destruct Hsh as (q & Hid & Hw & Hin & Hi & Hsh).
+    destruct Hsh as [(Hc & Hs) | [(Hc & Hs) | (Hc & Hs)]]; subst c2s idle s2c id0.
+    + serve_case.
+    + serve_case.
+    + exists LRecv. split; [reflexivity|]. unfold LoopSpec.astep, client; cbn. unfold mu_sys, phase; cbn. lia.
+  - destruct Hsh as (Hc & Hi & Hs); subst c2s idle s2c.
+    exists LTimeout. split; [reflexivity|]. unfold LoopSpec.astep, client; cbn. unfold mu_sys, phase; cbn. lia.
+  - contradiction.
+Qed.
+
+(* runs of internal steps that each change the state *)
+Inductive iruns : nat -> asys -> asys -> Prop :=
+  | IR0 s : iruns 0 s s
+  | IRS n s l s' : internal l = true -> astep s l <> s -> iruns n (astep s l) s' -> iruns (S n) s s'.
+
+Lemma inv_internal s l : Inv s -> internal l = true -> Inv (astep s l).
+Proof. intros HI Hl. apply inv_step; [destruct l; try discriminate Hl; exact I | exact HI]. Qed.
+
+(* every such run is shorter than the measure, and keeps the invariant *)
+Theorem internal_runs_bounded n s s' : Inv s -> iruns n s s' -> (n + mu_sys s' <= mu_sys s)%nat /\ Inv s'.
+Proof.
+  intros HI H. induction H as [s | n s l s' Hl Hne Hr IH]; [split; [lia | exact HI]|].
+  destruct (internal_step_decreases s l HI Hl) as [E | L]; [contradiction|].
+  destruct (IH (inv_internal s l HI Hl)) as [Hb HI']. split; [lia | exact HI'].
+Qed.
+
+(* a run that cannot be extended ends in the quiescent state: the client idles, the server waits
+   in idle, nothing is queued, in flight or pending *)
+Theorem maximal_run_is_quiescent n s s' : Inv s -> iruns n s s' ->
+  (forall l, internal l = true -> astep s' l = s') ->
+  a_pt s' = PIdle /\ a_queue s' = [] /\ a_c2s s' = [] /\ a_s2c s' = [] /\ a_idle s' = true /\ a_pending s' = [].
+Proof.
+  intros HI H Hmax. destruct (internal_runs_bounded n s s' HI H) as [_ HI'].
+  destruct (Nat.eq_dec (mu_sys s') 0) as [Hz | Hnz]; [apply mu_zero_quiescent; assumption|].
+  exfalso. destruct (positive_measure_can_step s' HI' ltac:(lia)) as (l & Hl & Hlt).
+  rewrite (Hmax l Hl) in Hlt. lia.
+Qed.
+
+
+(* ---------- functional correctness: replies handed out = replies of the requests written, in order ---------- *)
+
+Definition R (q : request) : N * response := (q_id q, reply_fn (q_bytes q)).
+
+(* the bytes of the request in flight *)
+Definition inflight (s : asys) : bytes :=
+  match a_s2c s with
+  | [SReply bs] => bs
+  | _ => last (a_c2s s) []
+  end.
+
+Definition Inv2 (s : asys) : Prop :=
+  match a_pt s with
+  | PWait id => exists pre q, a_sent s = pre ++ [q] /\ id = q_id q /\ a_replies s = map R pre /\ inflight s = q_bytes q
+  | _ => a_replies s = map R (a_sent s)
+  end.
+
+Lemma inv2_0 : Inv2 (a0).
+Proof. reflexivity. Qed.
+
+Lemma inv2_step s l : wf_label l -> Inv s -> Inv2 s -> Inv2 (astep s l).
+Proof.
+  intros Hl HI H2.
+  destruct s as [pt queue c2s idle pending s2c viol issued sent reported delivered replies].
+  pose proof HI as (Hsh & _).
+  unfold shape in Hsh; cbn [a_pt a_c2s a_idle a_s2c a_pending a_issued] in Hsh.
+  unfold Inv2 in H2; cbn [a_pt a_sent a_replies] in H2.
+  destruct l as [q | | | | | n].
+  - (* LIssue *) unfold LoopSpec.astep, Inv2; cbn. destruct pt; exact H2.
+  - (* LTake *)
+    unfold LoopSpec.astep; cbn [a_queue a_pt].
+    destruct queue as [|q rest]; [exact H2|].
+    destruct pt as [ | q0 | id0 | | ]; cbn [wants_cmd]; try exact H2.
+    + unfold client; cbn. unfold Inv2; cbn. rewrite app_nil_r. exact H2.
+    + destruct Hsh as (Hc & _ & Hs); subst c2s s2c. unfold client; cbn. unfold Inv2, inflight; cbn.
+      exists sent, q. auto.
+  - (* LRecv *)
+    unfold LoopSpec.astep; cbn [a_s2c a_pt].
+    destruct s2c as [|r rest]; [exact H2|].
+    destruct pt as [ | q0 | id0 | | ]; cbn [wants_recv]; try exact H2.
+    + destruct Hsh as [(_ & _ & Hs) | [(_ & _ & _ & Hs) | (ns & Hc & Hi & Hs)]]; try discriminate Hs.
+      inversion Hs; subst r rest c2s idle.
+      unfold client. cbn [a_pt cstep]. rewrite single_idle.
+      cbn [a_pt a_queue a_c2s a_idle a_pending a_s2c a_violated a_issued a_sent a_reported a_delivered a_replies sent_by].
+      rewrite apply_outs_events. cbn. unfold Inv2; cbn. rewrite app_nil_r. exact H2.
+    + destruct Hsh as (Hw & Hin & Hsh).
+      destruct Hsh as [(_ & _ & Hs) | [(_ & _ & _ & Hs) | [(ns & Hc & Hi & Hs) | (ns & Hc & Hi & Hs)]]]; try discriminate Hs;
+        inversion Hs; subst r rest c2s idle;
+        unfold client; cbn [a_pt cstep]; rewrite single_idle;
+        cbn [a_pt a_queue a_c2s a_idle a_pending a_s2c a_violated a_issued a_sent a_reported a_delivered a_replies sent_by];
+        rewrite apply_outs_events; cbn; unfold Inv2, inflight; cbn; exists sent, q0; auto.
+    + destruct Hsh as (q & Hid & Hw & Hin & Hi & Hsh).
+      destruct Hsh as [(_ & Hs) | [(_ & Hs) | (Hc & Hs)]]; try discriminate Hs.
+      inversion Hs; subst r rest c2s.
+      destruct H2 as (pre & q' & Hsent & Hid' & Hrep & Hfl). unfold inflight in Hfl; cbn in Hfl.
+      unfold client; cbn. unfold Inv2; cbn. rewrite app_nil_r. subst sent replies.
+      rewrite map_app. cbn. unfold R at 3. rewrite <- Hfl, <- Hid'. reflexivity.
+  - (* LTimeout *)
+    unfold LoopSpec.astep; cbn [a_pt]. destruct pt; try exact H2.
+    unfold client; cbn. unfold Inv2; cbn. rewrite app_nil_r. exact H2.
+  - (* LServe *)
+    unfold LoopSpec.astep, serve; cbn [a_c2s a_idle a_pending a_s2c a_pt].
+    destruct pt as [ | q0 | id0 | | ].
+    + destruct c2s as [|u rest]; [exact H2|]. destruct idle; [destruct (beq u noidle_line)|destruct (beq u idle_line); [destruct pending|destruct (beq u noidle_line)]];
+        unfold flush, Inv2; cbn; exact H2.
+    + destruct c2s as [|u rest]; [exact H2|]. destruct idle; [destruct (beq u noidle_line)|destruct (beq u idle_line); [destruct pending|destruct (beq u noidle_line)]];
+        unfold flush, Inv2; cbn; exact H2.
+    + destruct Hsh as (q & Hid & Hw & Hin & Hi & Hsh).
+      destruct H2 as (pre & q' & Hsent & Hid' & Hrep & Hfl).
+      destruct Hsh as [(Hc & Hs) | [(Hc & Hs) | (Hc & Hs)]]; subst c2s idle s2c; unfold inflight in Hfl; cbn in Hfl.
+      * simp_beq. unfold Inv2, inflight; cbn. exists pre, q'. auto.
+      * simp_beq. unfold Inv2, inflight; cbn. exists pre, q'. auto.
+      * unfold Inv2, inflight; cbn. exists pre, q'. auto.
+    + destruct c2s as [|u rest]; [exact H2|]. destruct idle; [destruct (beq u noidle_line)|destruct (beq u idle_line); [destruct pending|destruct (beq u noidle_line)]];
+        unfold flush, Inv2; cbn; exact H2.
+    + contradiction.
+  - (* LNotify *)
+    unfold LoopSpec.astep; cbn [a_c2s a_idle a_pending a_s2c a_pt].
+    destruct pt as [ | q0 | id0 | | ]; try (destruct idle; unfold flush, Inv2; cbn; exact H2).
+    destruct Hsh as (q & Hid & Hw & Hin & Hi & Hsh). subst idle. unfold Inv2, inflight; cbn. exact H2.
+Qed.
+
+Lemma inv2_fold sch : forall s, Forall wf_label sch -> Inv s -> Inv2 s -> Inv2 (fold_left astep sch s).
+Proof.
+  induction sch as [|l sch IH]; intros s Hw Hs H2; cbn [fold_left]; [exact H2|].
+  inversion Hw; subst. apply IH; [assumption | apply inv_step; assumption | apply inv2_step; assumption].
+Qed.
+
+Lemma iruns_inv2 n s s' : Inv s -> Inv2 s -> iruns n s s' -> Inv2 s'.
+Proof.
+  intros HI H2 H. induction H as [s | n s l s' Hl Hne Hr IH]; [exact H2|].
+  apply IH; [apply inv_internal; assumption|].
+  apply inv2_step; [destruct l; try discriminate Hl; exact I | exact HI | exact H2].
+Qed.
+
+(* THE liveness + correctness statement: take any schedule, then let the client and the server
+   run (in any order) until nothing more can happen; then every request that was ever issued has
+   been handed exactly the server's reply to its own bytes, in issue order, and nothing else *)
+Theorem all_answered_in_order sch n s' :
+  Forall wf_label sch -> iruns n (arun reply_fn sch) s' ->
+  (forall l, internal l = true -> astep s' l = s') ->
+  a_replies s' = map R (a_issued s') /\ (n <= mu_sys (arun reply_fn sch))%nat.
+Proof.
+  intros Hw Hr Hmax.
+  pose proof (inv_run reply_fn sch Hw) as HI.
+  assert (H2 : Inv2 (arun reply_fn sch)) by (unfold arun; apply inv2_fold; [exact Hw | apply inv0 | exact inv2_0]).
+  destruct (internal_runs_bounded n _ s' HI Hr) as [Hb HI'].
+  destruct (maximal_run_is_quiescent n _ s' HI Hr Hmax) as (Hp & Hq & _).
+  pose proof (iruns_inv2 n _ s' HI H2 Hr) as H2'. unfold Inv2 in H2'. rewrite Hp in H2'.
+  destruct HI' as (_ & _ & _ & _ & _ & Hf & _). rewrite Hp, Hq in Hf. cbn in Hf. rewrite app_nil_r in Hf.
+  split; [rewrite H2', Hf; reflexivity | lia].
+Qed.
+
+End Progress.
